@@ -126,7 +126,7 @@ func NewOptsCorr(c *Ctx, r *rand.Rand) []Failure {
 			desc = append(desc, map[string]interface{}{"k": "planner", "id": id})
 			opts = append(opts, gateway.WithPlanner(p))
 		case 1:
-			all := []string{"A", "B", "C", "nowhere"}
+			all := []string{"A", "B", "C", "nowhere", "", "A"}
 			r.Shuffle(len(all), func(a, b int) { all[a], all[b] = all[b], all[a] })
 			l := append([]string{}, all[:r.Intn(len(all)+1)]...)
 			desc = append(desc, map[string]interface{}{"k": "priorities", "l": l})
